@@ -14,14 +14,17 @@
   `first_delete`: decompress, carry the cursor, delete — the result is the plain object of the
   canonical pieces without the record under the cursor, with a void cursor; from there `walk_delete`
   applies; `walk_delete_parsed` composes the two phases (Lemmas/DeleteWalkFresh.lean: until the first
-  deletion the object is untouched and the cursor walks the parsed records).  Not covered by a
-  theorem: the question section (KF1: by design the result is rejected by the parser) and the
-  OPT-skipping walk over an additional section that holds an OPT record (both covered by the
-  exhaustive correspondence walks).
+  deletion the object is untouched and the cursor walks the parsed records).
+  `walk_delete_skipping_opt` is the statement for the public `next()` walk over an additional section
+  that holds an OPT record (Lemmas/DeleteWalkSkip.lean: the walker sees the other records; OPT stays).
+  Not covered by a theorem: the question section (KF1: by design the result is rejected by the
+  parser), and the OPT-skipping walk started on a still-flagged object whose additional section holds
+  OPT (both covered by the exhaustive correspondence walks).
 -/
 import DnsModel.Lemmas.DeleteWalk
 import DnsModel.Lemmas.FirstTouch
 import DnsModel.Lemmas.DeleteWalkFresh
+import DnsModel.Lemmas.DeleteWalkSkip
 import DnsModel.Theorems.C02
 import DnsModel.Theorems.C05
 namespace Dns.C11
@@ -216,6 +219,42 @@ theorem walk_delete_parsed {p : Bytes} {v : View} (h : parse p = .ok v) (L : C03
       simp only [List.map_nil, List.nil_append] at hperm
       exact s1.eq_of_length_le (by rw [hperm.length_eq]; exact Nat.le_refl _)
     · exact Or.inr ⟨P', f1, f2, f3, f4⟩
+
+/-- **C11 for the public walk over the additional section** (`next()`, which skips the OPT record) of a
+plain object that may hold an OPT record: the run terminates; the walker sees exactly the records
+other than OPT (`vis`) and does on them what the abstract machine does; afterwards the visible records
+are exactly what the machine left, the OPT record is where it was, everything else is untouched -/
+theorem walk_delete_skipping_opt {pp : PP} (P : PlainObj pp) (choose : Nat → Bool) (c : Cursor)
+    (hc : c.sec = .additional) (hv : c.offset = none) :
+    ∃ (pp' : PP) (P' : PlainObj pp') (r : List (Bytes × Nat) × List ((Bytes × Nat) × Bool)),
+      absWalk choose (fuelFor (vis (P.lst .additional)).length) 0 (numbered (vis (P.lst .additional))) 0 = some r ∧
+      delWalk nextSkippingOpt choose (fuelFor (vis (P.lst .additional)).length) 0 pp c = .ok (pp', r.2.map (fun e => (e.1.1, e.2))) ∧
+      vis (P'.lst .additional) = r.1.map (·.1) ∧
+      (P'.lst .additional).filter isOptPiece = (P.lst .additional).filter isOptPiece ∧
+      r.1.Sublist (numbered (vis (P.lst .additional))) ∧
+      (((r.2.filter (·.2)).map (·.1)) ++ r.1).Perm (numbered (vis (P.lst .additional))) ∧
+      (∀ l1 l2 a, r.2 = l1 ++ (a, true) :: l2 → a ∉ l2.map (·.1) ∧ a ∉ r.1) ∧
+      (∀ a ∈ r.1, (a, false) ∈ r.2) ∧
+      (∀ s, s ≠ .additional → P'.lst s = P.lst s) ∧ P'.qls = P.qls ∧ P'.q4 = P.q4 ∧
+      (∀ i, (i + 1 < 10 ∨ 11 < i) → get16 P'.hdr i = get16 P.hdr i) := by
+  have hlen : (numbered (vis (P.lst .additional))).length = (vis (P.lst .additional)).length := by simp [numbered]
+  have hterm := absWalk_terminates choose (fuelFor (vis (P.lst .additional)).length) 0 (numbered (vis (P.lst .additional))) 0
+    (by rw [hlen]; unfold fuelFor; omega)
+  obtain ⟨r, hr⟩ := Option.isSome_iff_exists.1 hterm
+  have hmap := absWalk_map Prod.fst choose (fuelFor (vis (P.lst .additional)).length) 0 (numbered (vis (P.lst .additional))) 0
+  have hfst : (numbered (vis (P.lst .additional))).map Prod.fst = vis (P.lst .additional) := by simp [numbered]
+  rw [hfst, hr] at hmap
+  simp only [Option.map_some] at hmap
+  have h0 : (vis ((P.lst .additional).take 0)).length = 0 := by simp [vis]
+  rw [← h0] at hmap
+  obtain ⟨pp', P', hw, f1, f2, f3, f4, f5, f6⟩ := delWalkSkip_refines choose _ 0 pp P c 0 ⟨hc, Or.inl ⟨hv, rfl⟩⟩ _ hmap
+  obtain ⟨s1, _⟩ := absWalk_sublist choose _ _ _ _ _ hr
+  refine ⟨pp', P', r, hr, hw, f1, f2, s1, absWalk_perm choose _ _ _ _ _ hr,
+    absWalk_deleted_gone choose _ _ _ _ _ (numbered_nodup _) hr, ?_, f3, f4, f5, f6⟩
+  intro a ha
+  rcases absWalk_yields_survivors choose _ _ _ _ _ hr a ha with h0 | h1
+  · simp at h0
+  · exact h1
 
 /-- the hypotheses are satisfiable and the machine does what one expects on a small case:
 three records, the first and the third chosen -/
